@@ -152,6 +152,24 @@ fn main() {
             rec.insert("meta".into(), m.clone());
         }
         rec.insert("t".into(), table.clone());
+        // Optional twin: another text of the same grammar (no decoration) under the same
+        // settings; CheckTables compares the two automata.
+        if let Some(tw) = case.get("twin_grammar").and_then(|x| x.as_str()) {
+            let tw = tw.to_string();
+            rec.insert("twin_grammar".into(), json!(tw));
+            let st2 = cfg.settings();
+            let twin = catch(move || {
+                if raw {
+                    rustemo_compiler::verif::table_json_raw(&tw, &st2)
+                } else {
+                    rustemo_compiler::verif::table_json(&tw, &st2)
+                }
+            });
+            if let Ok(Ok(j)) = twin {
+                let t2: Value = serde_json::from_str(j.as_str()).expect("hook json");
+                rec.insert("t2".into(), json!({"states": t2["states"], "prods": t2["prods"]}));
+            }
+        }
         writeln!(dumps, "{}", Value::Object(rec)).unwrap();
         ndumps += 1;
         let gref = ndumps;
